@@ -75,6 +75,14 @@ def run(run, model, proof):
         plugins = rng.random() < 0.7
         nfiles = rng.randrange(1, 9)
         files = dirgen.gen_dir(model, rng, nfiles, plugins=plugins)
+        long_ref = None
+        if rng.random() < 0.15:
+            # a reference code that fills its 32-character field (no padding): --src may be given all of it
+            from props import c04, c18
+            long_ref = "BD8D" + "".join(rng.choice("0123456789ABCDEFXYZ") for _ in range(28))
+            body, _w = c18.src_body(rng, long_ref, proc=None, wcount=9)
+            eid32 = 0x54000000 + rng.randrange(1 << 16)
+            files.append(("r%08X.pel" % eid32, dirgen.set_ids(c04.mini_pel(b"O", [(b"PS", 1, 1, 0x2000, body)]), eid=eid32), dict(kind="pel", eid=eid32)))
         pool = [rng.choice(small) for _ in range(3)] + [rng.randrange(1 << 32)]
         files = [(nm, dirgen.set_ids(d, plid=rng.choice(pool), obmc=rng.choice(small[:6] + [rng.randrange(1 << 32)])), m) for nm, d, m in files]
         # some files are named after their entry id, as phosphor-logging does
@@ -162,6 +170,8 @@ def run(run, model, proof):
             refs = {k: refcode_of(f[1], plugins) for k, f in ((f[0], f) for f in files)}
             some = [r for r in refs.values() if r]
             s = rng.choice(some)[rng.randrange(0, 4):][:rng.randrange(1, 9)] if some and rng.random() < 0.8 else rng.choice(["ZZZ", "BD", "1", " "])
+            if long_ref is not None:
+                s = rng.choice([long_ref, long_ref[:31], long_ref[1:], long_ref[:32]])      # 32, 31, 31 and 32 characters
             if s:
                 rc, out, err = cli_runner.run_inproc(["-p", d] + pl + ["--src", s])
                 want = sorted(k for k, r in refs.items() if r is not None and s in r)
